@@ -72,6 +72,11 @@ def mk_points(P, numtype, ptkind="auto"):
     """P: list of Fractions (scalar curve) or list of lists (vector curve)"""
     if P is None:
         return None
+    integral = all(F(c).denominator == 1 and abs(F(c)) < 2**40 for pt in P for c in (pt if isinstance(pt, (list, tuple)) else [pt]))
+    if integral and ptkind == "auto" and numtype in ("frac", "float", "npfloat") and (len(P) + len(str(P[-1]))) % 3 == 0:
+        # integral control values written the way users write them: one integer numpy array (dtype int64), scalar or
+        # vector valued. Whatever the library computes from them must not be cast back to that dtype
+        return np.array([[int(F(c)) for c in pt] if isinstance(pt, (list, tuple)) else int(F(pt)) for pt in P], dtype="int64")
     if not isinstance(P[0], (list, tuple)):
         return [num(x, numtype) for x in P]
     if numtype in ("frac", "int", "fracint"):
